@@ -426,10 +426,10 @@ func (d cffDict) setDeltaF16(op dictOp, val []funit.Int16) {
 		return
 	}
 	res := make([]interface{}, len(val))
-	var prev funit.Int16
+	var prev int32
 	for i, x := range val {
-		res[i] = int32(x - prev)
-		prev = x
+		res[i] = int32(x) - prev
+		prev = int32(x)
 	}
 	d[op] = res
 }
